@@ -11,7 +11,7 @@
 (* SkipAllVClose = FALSE is the variant that steps over only one virtual closing brace when     *)
 (* it looks for a following 'else'; TLC finds the tree on which it re-attaches an else.         *)
 EXTENDS Naturals, Sequences, FiniteSets, TLC, Json
-CONSTANTS Depth, ChainDepth, SkipAllVClose, Emit
+CONSTANTS Depth, ChainDepth, SkipAllVClose, IfGuard, Emit
 
 (* ===================================================================== Part 1 *)
 ModKinds == [
@@ -103,7 +103,7 @@ CanRemove(L, i) ==
       close == r[2]
       nxt == SkipV(L, close + 1, IF SkipAllVClose THEN Len(L) ELSE 1)
   IN /\ r[1] = "go" /\ close <= Len(L) /\ L[close].t = "}"
-     /\ ~(r[3] > 0 /\ nxt <= Len(L) /\ L[nxt].t = "E")
+     /\ ~(IfGuard /\ r[3] > 0 /\ nxt <= Len(L) /\ L[nxt].t = "E")
      /\ r[4] > 0
 Convert(L, i) == LET close == ScanBody(L, i + 1, L[i].lv + 1, 0, FALSE, 0)[2]
                  IN [j \in 1..Len(L) |-> IF j = i THEN [L[j] EXCEPT !.t = "v{"] ELSE IF j = close THEN [L[j] EXCEPT !.t = "v}"] ELSE L[j]]
@@ -147,7 +147,10 @@ MeaningKept == PStmt(Printed(RemoveBraces(tree)))[1] = Shape(tree)
 OnlyBracesGo == LET a == Printed(Tok(tree, 0))
                     b == Printed(RemoveBraces(tree))
                 IN Strip(a, {"{", "}"}) = Strip(b, {"{", "}"}) /\ BalancedSeq(b)
-(* with a weakened rule (SkipAllVClose = FALSE) the trees on which the weakening shows: the      *)
+(* IfGuard = FALSE is the variant without the 'an if in the body and an else behind the brace'     *)
+(* clause at all (what can_remove_braces() of the if-chain pass lacked): must violate MeaningKept  *)
+(* with a weakened rule (SkipAllVClose = FALSE, IfGuard = FALSE) the trees on which the weakening  *)
+(* shows:                                                                                          *)
 (* sensitivity set of that clause, replayed on the binary in every tier                          *)
 EmitHazard == (Emit /\ ~MeaningKept) => PrintT("@@" \o ToJson([tokens |-> Printed(Tok(tree, 0)), after |-> Printed(Tok(tree, 0)), hazard |-> TRUE]))
 EmitTree == Emit => PrintT("@@" \o ToJson([tokens |-> Printed(Tok(tree, 0)), after |-> Printed(RemoveBraces(tree))]))
